@@ -5,8 +5,13 @@ Relations
                 and name multisets (collisions incl. already-suffixed forms), plain or gzip
   read        : read() of hand-made files: comment lines, missing '#IID', NA/na/text cells, blank lines,
                 ragged rows, sample filters; records, names and the number of error messages compared
-  standardize : Phenotypes.standardize on well-conditioned tables incl. constant columns
-  ops         : append / subset / check_missing on small tables (ids interned)
+  standardize : Phenotypes.standardize on well-conditioned tables incl. constant columns; agree = exact rational
+                (deviation, variance) model per cell, holds = mean 0 / variance 1 of the output (independent checks)
+  ops         : ONE append / subset / check_missing on a fresh small table (ids interned)
+  opseq       : SEQUENCES (1-8) of index / subset (copy, in place, re-ordering, shrinking, unknown and repeated ids) /
+                append (fitting or wrong length) / check_missing (flag, discard) / standardize / write+read on one
+                Phenotypes or Covariates object; the full table is observed after every step.  agree = the cache-free
+                model C15_SeqModel.run, holds = each step against the table the implementation held before it
 """
 import logging
 import os
@@ -28,7 +33,7 @@ def _bud(q, t):
 
 PROP = "C15"
 CLAIMED = True
-COQ_MODULES = ["Stats", "C15_Model", "C15_Check", "C15_Proofs"]
+COQ_MODULES = ["Stats", "C15_Model", "C15_Check", "C15_Proofs", "C15_SeqModel", "C15_SeqCheck", "C15_SeqProofs"]
 PROPERTY_MODULE = "C15_Property"
 ALLOWED_AXIOMS = []
 RULE = (
@@ -36,17 +41,23 @@ RULE = (
     "1e+-300, >= 2^53, 17 significant digits, mixed magnitudes in one row) or the name multiset has a collision. "
     "read: non-trivial = the file has a comment line, a non-numeric cell or a sample filter. standardize: always "
     "(constant and non-constant columns). ops: non-trivial = the operation changes the table or raises. "
-    "Distinct = distinct canonical JSON."
+    "opseq: non-trivial = a look-up by id (index / subset with a request) is executed after an earlier step changed the "
+    "object's table. Distinct = distinct canonical JSON."
 )
 TRUSTED = [
     "float64 text codec (numpy array2string floatmode='unique' + float64 parsing) is a Section contract "
     "parse (fmt x) = Some x, exercised bit-for-bit on every roundtrip case",
     "csv.reader field splitting on names/samples without tab, newline, CR or double quote",
     "standardize compared with exact rational mean/variance to 1e-9 (relative to dev^2 + var) on well-conditioned columns",
+    "opseq: the cells after a standardize step are taken from the observation (checked against the exact rational model "
+    "of the model's own cells before the step) - the model does not compute floats",
 ]
 ASSUMPTIONS = [
     "names and sample ids contain no tab/newline/CR/double quote; tables have >= 1 sample and >= 1 column",
-    "standardize clause: finite columns with |mean| <= 1e3 * stdev (or exactly constant); NaN payloads not compared",
+    "standardize clause: finite columns with |mean| <= 1e3 * stdev, variance >= 1e-100, |x| <= 1e100 (or exactly "
+    "constant); a column holding nan/inf is modelled as all-nan (agree only); NaN payloads not compared",
+    "opseq: a look-up on an axis that currently holds duplicate ids is not made (the single-operation relation `ops` "
+    "covers the ValueError), write+read is not made on a table without rows or columns; both are no-ops of the model too",
 ]
 
 
@@ -455,11 +466,11 @@ class Read(Relation):
 
 class Standardize(Relation):
     name = "standardize"
-    coq_module = "C15_Check"
-    coq_check = "check_st"
-    coq_case_type = "stcase"
-    coq_model = "model_st"
-    coq_imports = ["Stats", "C15_Model"]
+    coq_module = "C15_SeqCheck"          # agree = exact rational model, holds = mean 0 / variance 1 of the output
+    coq_check = "check_st2"
+    coq_case_type = "C15_Check.stcase"
+    coq_model = "model_st2"
+    coq_imports = ["Stats", "C15_Model", "C15_Check"]
     budget = _bud(500, 10000)
     max_cases_per_shard = 120
     anchors = [("haptools/data/phenotypes.py", "Phenotypes.standardize")]
@@ -687,18 +698,579 @@ class Ops(Relation):
         return f"ops {k} result differs from the specification"
 
 
-RELATIONS = [RoundTrip(), Read(), Standardize(), Ops()]
+
+# ----------------------------------------------------------------------------------------------
+# opseq: SEQUENCES of table operations on one object, the full table observed after every step
+# ----------------------------------------------------------------------------------------------
+
+M9 = f2b(-9.0)
+SEQ_SAMPLES = ["s0", "s1", "s2", "s3", "s4", "s5", "s6", "HG00096", "NA12878", "-9", "007"]
+SEQ_NAMES = ["a", "a", "a", "a-1", "a-2", "b", "b", "b-1", "a-1-1", "height", "p0", "p1"]
+SEQ_CELLS = [9.0, -9.000000000000002, 0.0, 1.5, -0.0, 2.0, 0.1, -3.25, 7.0, 0.30000000000000004, 12.0, -1.0, 100.0]
+UNKNOWN_IDS = ["zz", "s9", "a-9"]
+
+
+def _tab_of(p):
+    data = np.asarray(p.data, dtype="float64")
+    if data.ndim != 2:
+        return None
+    rows = [[f2b(v) for v in row] for row in data.tolist()]
+    if len(rows) == 0:
+        rows = []
+    return {"samples": [str(x) for x in p.samples], "names": [str(x) for x in p.names], "data": rows}
+
+
+def _has_dup(l):
+    return len(set(l)) < len(l)
+
+
+def _is_lookup(op):
+    return op["k"] == "index" or (op["k"] == "subset" and (op["rs"] is not None or op["rn"] is not None))
+
+
+def ref_uniq(names):
+    """Phenotypes.write's suffixing as repaired (used only to steer generation / describe failures)"""
+    cnt, used, out = {}, set(), []
+    for nm in names:
+        new = nm
+        while new in used:
+            cnt[nm] = cnt.get(nm, 0) + 1
+            new = f"{nm}-{cnt[nm]}"
+        used.add(new)
+        out.append(new)
+    return out
+
+
+def ref_step(op, t):
+    """cache-free reference of one step on table dict t -> (ret, self_after); ret = table | ('err', kind) | None
+    (None = not predicted: standardize).  NOT part of the verdict: used by signature/nontrivial only."""
+    s, nm, d = t["samples"], t["names"], t["data"]
+    k = op["k"]
+    if k == "index":
+        if (op["s"] and _has_dup(s)) or (op["n"] and _has_dup(nm)):
+            return t, t  # skipped
+        return t, t
+    if k == "subset":
+        if (op["rs"] is not None and _has_dup(s)) or (op["rn"] is not None and _has_dup(nm)):
+            return t, t
+        rows, ss = d, s
+        if op["rs"] is not None:
+            ss = [x for x in op["rs"] if x in s]
+            rows = [d[s.index(x)] for x in ss]
+        nn = nm
+        if op["rn"] is not None:
+            nn = [x for x in op["rn"] if x in nm]
+            rows = [[r[nm.index(x)] for x in nn] for r in rows]
+        o = {"samples": ss, "names": nn, "data": rows}
+        return o, (o if op["inplace"] else t)
+    if k == "append":
+        col = op["col"][: len(s)] if op["fit"] else op["col"]
+        if len(col) != len(d):
+            return ("err", 1), t
+        o = {"samples": s, "names": nm + [op["name"]], "data": [r + [v] for r, v in zip(d, col)]}
+        return o, o
+    if k == "missing":
+        bad = [any(b == M9 for b in r) for r in d]
+        if not any(bad):
+            return t, t
+        if not op["discard"]:
+            return ("err", 1), t
+        o = {"samples": [x for x, b in zip(s, bad) if not b], "names": nm, "data": [r for r, b in zip(d, bad) if not b]}
+        return o, o
+    if k == "writeread":
+        if not s or not nm:
+            return t, t
+        o = {"samples": s, "names": ref_uniq(nm), "data": d}
+        return o, o
+    return None, None
+
+
+def _canon_tab(t):
+    return None if t is None else (tuple(t["samples"]), tuple(t["names"]), tuple(tuple(canon_bits(b) for b in r) for r in t["data"]))
+
+
+class OpSeq(Relation):
+    name = "opseq"
+    coq_module = "C15_SeqCheck"
+    coq_check = "check_seq"
+    coq_case_type = "seqcase"
+    coq_model = "model_seq"
+    coq_imports = ["Stats", "C15_Model", "C15_Check", "C15_SeqModel"]
+    budget = _bud(500, 12000)
+    max_cases_per_shard = 60
+    anchors = [("haptools/data/phenotypes.py", "Phenotypes.append"), ("haptools/data/phenotypes.py", "Phenotypes.subset"),
+               ("haptools/data/phenotypes.py", "Phenotypes.check_missing"), ("haptools/data/phenotypes.py", "Phenotypes.index"),
+               ("haptools/data/phenotypes.py", "Phenotypes.standardize"), ("haptools/data/phenotypes.py", "Phenotypes.read"),
+               ("haptools/data/phenotypes.py", "Phenotypes.write")]
+    CLASSES = ["random", "random", "random", "lookup-discard-lookup", "lookup-discard-lookup", "lookup-append-lookup",
+               "lookup-inplace-lookup", "lookup-writeread-lookup", "append-m9-discard-lookup", "standardize-mix"]
+
+    # ---- generation ---------------------------------------------------------------------------
+    def _table(self, rng, nmin=1, distinct_names=None):
+        n, m = int(rng.integers(nmin, 7)), int(rng.integers(1, 5))
+        samples = [str(x) for x in rng.choice(SEQ_SAMPLES, size=n, replace=False)]
+        if rng.random() < 0.04 and n > 1:
+            samples[int(rng.integers(1, n))] = samples[0]
+        if distinct_names is None:
+            distinct_names = rng.random() < 0.6
+        names = [f"p{j}" for j in range(m)] if distinct_names else [str(rng.choice(SEQ_NAMES)) for _ in range(m)]
+        data = [[f2b(float(rng.choice(SEQ_CELLS))) for _ in range(m)] for _ in range(n)]
+        return samples, names, data
+
+    def _put_m9(self, rng, data, where=None):
+        """-9 into first / middle / last rows, one or several columns; returns the labels"""
+        n, m = len(data), len(data[0])
+        labs = []
+        where = where or [str(rng.choice(["first", "middle", "last", "none", "several", "all"]))]
+        rows = set()
+        for w in where:
+            if w == "first":
+                rows.add(0)
+            elif w == "last":
+                rows.add(n - 1)
+            elif w == "middle" and n > 2:
+                rows.add(int(rng.integers(1, n - 1)))
+            elif w == "several":
+                rows.update(int(x) for x in rng.choice(n, size=int(rng.integers(1, n + 1)), replace=False))
+            elif w == "all":
+                rows.update(range(n))
+        for i in rows:
+            for j in rng.choice(m, size=int(rng.integers(1, m + 1)), replace=False):
+                data[i][int(j)] = M9
+            labs.append("m9-first" if i == 0 else "m9-last" if i == n - 1 else "m9-middle")
+        return sorted(set(labs))
+
+    def _req(self, rng, pool, none_p=0.25):
+        if rng.random() < none_p:
+            return None
+        pool = list(dict.fromkeys(pool)) or ["zz"]
+        r = rng.random()
+        if r < 0.3:  # re-ordering of everything
+            return [str(x) for x in rng.permutation(pool)]
+        k = int(rng.integers(0, len(pool) + 1))
+        req = [str(x) for x in rng.choice(pool, size=k, replace=bool(rng.random() < 0.15))] if k else []
+        if rng.random() < 0.3:
+            req.insert(int(rng.integers(0, len(req) + 1)), str(rng.choice(UNKNOWN_IDS)))
+        return req
+
+    def _col(self, rng, m9=None):
+        col = [f2b(float(rng.choice(SEQ_CELLS))) for _ in range(8)]
+        if m9 is None:
+            m9 = str(rng.choice(["none", "none", "first", "middle", "last"]))
+        if m9 == "first":
+            col[0] = M9
+        elif m9 == "middle":
+            col[int(rng.integers(1, 3))] = M9
+        elif m9 == "last":
+            for i in range(8):
+                if rng.random() < 0.5 or i == 7:
+                    col[i] = M9  # some position will be the current last row
+                    break
+        return col
+
+    def _op(self, rng, st, kind=None):
+        """one random operation; st = {'samples','names'}: pools of ids seen so far"""
+        kind = kind or str(rng.choice(["index", "subset", "subset", "subset", "append", "missing", "missing",
+                                       "standardize", "writeread"]))
+        if kind == "index":
+            s, n = bool(rng.random() < 0.8), bool(rng.random() < 0.6)
+            return {"k": "index", "s": s, "n": n}
+        if kind == "subset":
+            rs = self._req(rng, st["samples"], 0.3)
+            rn = self._req(rng, st["names"], 0.55)
+            return {"k": "subset", "rs": rs, "rn": rn, "inplace": bool(rng.random() < 0.5)}
+        if kind == "append":
+            nm = f"n{len(st['names'])}" if rng.random() < 0.75 else str(rng.choice(SEQ_NAMES))
+            st["names"].append(nm)
+            fit = bool(rng.random() < 0.8)
+            col = self._col(rng)
+            if not fit:
+                col = col[: int(rng.integers(0, 8))]
+            return {"k": "append", "fit": fit, "name": nm, "col": col}
+        if kind == "missing":
+            return {"k": "missing", "discard": bool(rng.random() < 0.7)}
+        if kind == "writeread":
+            st["names"] = st["names"] + [x for x in ref_uniq(st["names"]) if x not in st["names"]]
+            return {"k": "writeread"}
+        return {"k": "standardize"}
+
+    def _lookup(self, rng, st, axis="s"):
+        """a look-up that leaves the object's table alone: index() or a copying subset"""
+        if rng.random() < 0.4:
+            return {"k": "index", "s": axis == "s" or bool(rng.random() < 0.5), "n": axis == "n" or bool(rng.random() < 0.5)}
+        pool = st["samples"] if axis == "s" else st["names"]
+        req = self._req(rng, pool, 0.0)
+        return {"k": "subset", "rs": req if axis == "s" else None, "rn": req if axis == "n" else None, "inplace": False}
+
+    def _one(self, rng, klass):
+        labs = []
+        if klass == "random":
+            s, nm, d = self._table(rng)
+            labs += self._put_m9(rng, d)
+            st = {"samples": list(s), "names": list(nm)}
+            ops = [self._op(rng, st) for _ in range(int(rng.integers(1, 9)))]
+        elif klass == "lookup-discard-lookup":
+            # look-up, discard a sample that is not the last one, look-up again (stale row numbers)
+            s, nm, d = self._table(rng, nmin=2)
+            labs += self._put_m9(rng, d, where=[str(rng.choice(["first", "middle", "several"]))])
+            st = {"samples": list(s), "names": list(nm)}
+            ops = [self._op(rng, st) for _ in range(int(rng.integers(0, 2)))]
+            ops.append(self._lookup(rng, st, "s"))
+            ops += [self._op(rng, st, str(rng.choice(["standardize", "append", "index"]))) for _ in range(int(rng.integers(0, 2)))
+                    if rng.random() < 0.3]
+            ops.append({"k": "missing", "discard": True})
+            for _ in range(int(rng.integers(1, 3))):
+                ops.append({"k": "subset", "rs": self._req(rng, st["samples"], 0.0), "rn": self._req(rng, st["names"], 0.7),
+                            "inplace": bool(rng.random() < 0.4)})
+        elif klass == "append-m9-discard-lookup":
+            s, nm, d = self._table(rng, nmin=2)
+            st = {"samples": list(s), "names": list(nm)}
+            ops = [self._lookup(rng, st, str(rng.choice(["s", "n"])))]
+            st["names"].append("nx")
+            ops.append({"k": "append", "fit": True, "name": "nx", "col": self._col(rng, str(rng.choice(["first", "middle", "last"])))})
+            ops.append({"k": "missing", "discard": bool(rng.random() < 0.85)})
+            ops.append({"k": "subset", "rs": self._req(rng, st["samples"], 0.1), "rn": self._req(rng, st["names"], 0.4),
+                        "inplace": bool(rng.random() < 0.4)})
+            ops += [self._op(rng, st) for _ in range(int(rng.integers(0, 3)))]
+        elif klass == "lookup-append-lookup":
+            s, nm, d = self._table(rng, distinct_names=True)
+            labs += self._put_m9(rng, d)
+            st = {"samples": list(s), "names": list(nm)}
+            ops = [self._lookup(rng, st, "n")]
+            for _ in range(int(rng.integers(1, 3))):
+                ops.append(self._op(rng, st, "append"))
+            ops.append({"k": "subset", "rs": self._req(rng, st["samples"], 0.6), "rn": self._req(rng, st["names"], 0.0),
+                        "inplace": bool(rng.random() < 0.5)})
+            ops += [self._op(rng, st) for _ in range(int(rng.integers(0, 3)))]
+        elif klass == "lookup-inplace-lookup":
+            s, nm, d = self._table(rng, nmin=2, distinct_names=True)
+            labs += self._put_m9(rng, d)
+            st = {"samples": list(s), "names": list(nm)}
+            ops = [self._lookup(rng, st, str(rng.choice(["s", "n"])))] if rng.random() < 0.6 else []
+            ops.append({"k": "subset", "rs": self._req(rng, st["samples"], 0.2), "rn": self._req(rng, st["names"], 0.5), "inplace": True})
+            for _ in range(int(rng.integers(1, 4))):
+                ops.append({"k": "subset", "rs": self._req(rng, st["samples"], 0.2), "rn": self._req(rng, st["names"], 0.5),
+                            "inplace": bool(rng.random() < 0.5)})
+        elif klass == "lookup-writeread-lookup":
+            s, nm, d = self._table(rng, distinct_names=False)
+            if rng.random() < 0.5:  # a name occurring three or more times
+                base = str(rng.choice(["a", "b", "a-1"]))
+                nm = [base if rng.random() < 0.75 else x for x in (nm + [base, base, base])[: max(3, len(nm))]]
+                d = [[f2b(float(rng.choice(SEQ_CELLS))) for _ in nm] for _ in s]
+            labs += self._put_m9(rng, d)
+            st = {"samples": list(s), "names": list(nm)}
+            ops = [self._lookup(rng, st, "s")] if rng.random() < 0.6 else []
+            if rng.random() < 0.4:
+                ops.append(self._op(rng, st, "append"))
+            ops.append(self._op(rng, st, "writeread"))
+            new = ref_uniq(nm + [o["name"] for o in ops if o["k"] == "append"])
+            ops.append({"k": "subset", "rs": self._req(rng, st["samples"], 0.5), "rn": self._req(rng, new, 0.0),
+                        "inplace": bool(rng.random() < 0.5)})
+            ops += [self._op(rng, st) for _ in range(int(rng.integers(0, 3)))]
+        else:  # standardize-mix
+            s, nm, d = self._table(rng, nmin=2, distinct_names=True)
+            labs += self._put_m9(rng, d)
+            st = {"samples": list(s), "names": list(nm)}
+            ops = []
+            for _ in range(int(rng.integers(2, 7))):
+                ops.append(self._op(rng, st, "standardize" if rng.random() < 0.4 else None))
+        return {"cls": "C" if rng.random() < 0.3 else "P", "gz": bool(rng.random() < 0.15), "samples": s, "names": nm,
+                "data": d, "ops": ops[:8], "klass": klass, "labs": labs}
+
+    def generate(self, rng, n, tier):
+        return [self._one(rng, str(rng.choice(self.CLASSES))) for _ in range(n)]
+
+    def exhaustive(self, tier):
+        """every sequence of length <= 3 over a ten-operation alphabet on one 4 x 2 table whose second row holds -9"""
+        import itertools
+
+        s, nm = ["s0", "s1", "s2", "s3"], ["a", "b"]
+        d = [[f2b(1.0), f2b(2.0)], [M9, f2b(4.0)], [f2b(5.0), f2b(7.0)], [f2b(8.0), f2b(6.5)]]
+        col = [f2b(3.0), f2b(0.5), M9, f2b(1.0)]
+        alpha = [
+            {"k": "index", "s": True, "n": True},
+            {"k": "subset", "rs": ["s3", "s2", "s0"], "rn": None, "inplace": False},
+            {"k": "subset", "rs": ["s2", "zz", "s3", "s1"], "rn": ["b"], "inplace": True},
+            {"k": "subset", "rs": None, "rn": ["c", "b", "a"], "inplace": False},
+            {"k": "append", "fit": True, "name": "c", "col": col},
+            {"k": "append", "fit": False, "name": "a", "col": col[:2]},
+            {"k": "missing", "discard": True},
+            {"k": "missing", "discard": False},
+            {"k": "standardize"},
+            {"k": "writeread"},
+        ]
+        out = []
+        for ln in (1, 2, 3):
+            for ops in itertools.product(alpha, repeat=ln):
+                out.append({"cls": "P", "gz": False, "samples": s, "names": nm, "data": d, "ops": [dict(o) for o in ops],
+                            "klass": "exhaustive", "labs": ["m9-middle"]})
+        return out
+
+    # ---- running the implementation -----------------------------------------------------------
+    def run_impl(self, inp):
+        import warnings
+
+        d = tempfile.mkdtemp(prefix="hv_c15_")
+        steps = []
+        try:
+            ext = ".covar" if inp["cls"] == "C" else ".pheno"
+            fn = os.path.join(d, "t" + ext + (".gz" if inp.get("gz") else ""))
+            p = new_obj(inp["cls"], fn, quiet_logger())
+            p.samples = tuple(inp["samples"])
+            p.names = tuple(inp["names"])
+            p.data = np.array([[b2f(b) for b in row] for row in inp["data"]], dtype="float64").reshape(
+                len(inp["samples"]), len(inp["names"]))
+            for op in inp["ops"]:
+                k = op["k"]
+                dup_s, dup_n = _has_dup(p.samples), _has_dup(p.names)
+                skip = ((k == "index" and ((op["s"] and dup_s) or (op["n"] and dup_n)))
+                        or (k == "subset" and ((op["rs"] is not None and dup_s) or (op["rn"] is not None and dup_n)))
+                        or (k == "writeread" and (len(p.samples) == 0 or len(p.names) == 0)))
+                ret = None
+                if skip:
+                    ret = {"ok": _tab_of(p)}
+                else:
+                    try:
+                        res = p
+                        with warnings.catch_warnings():
+                            warnings.simplefilter("ignore")
+                            with np.errstate(all="ignore"):
+                                if k == "index":
+                                    p.index(samples=op["s"], names=op["n"])
+                                elif k == "subset":
+                                    rs = tuple(op["rs"]) if op["rs"] is not None else None
+                                    rn = tuple(op["rn"]) if op["rn"] is not None else None
+                                    r = p.subset(samples=rs, names=rn, inplace=op["inplace"])
+                                    res = p if op["inplace"] else r
+                                elif k == "append":
+                                    col = op["col"][: len(p.samples)] if op["fit"] else op["col"]
+                                    p.append(op["name"], np.array([b2f(b) for b in col], dtype="float64"))
+                                elif k == "missing":
+                                    p.check_missing(discard_also=op["discard"])
+                                elif k == "standardize":
+                                    p.standardize()
+                                elif k == "writeread":
+                                    p.write()
+                                    p.read()
+                        ret = {"ok": _tab_of(res)}
+                    except Exception as e:  # noqa
+                        ret = {"err": err_kind(e), "cls": type(e).__name__, "msg": str(e)[:160]}
+                self_t = _tab_of(p)
+                if self_t is None or ("ok" in ret and ret["ok"] is None):
+                    steps.append({"unobs": True})
+                    break
+                steps.append({"ret": ret, "self": self_t, "skipped": bool(skip)})
+            return {"steps": steps}
+        finally:
+            shutil.rmtree(d, ignore_errors=True)
+
+    # ---- Coq term -----------------------------------------------------------------------------
+    def encode(self, inp, obs):
+        steps = obs.get("steps") if isinstance(obs, dict) else None
+        tabs, binds = {}, []
+
+        def tab(t):
+            key = canon_json(t)
+            if key not in tabs:
+                tabs[key] = f"t{len(tabs)}"
+                binds.append(f"let {tabs[key]} : ntab := mktab {names_term(t['samples'])} {names_term(t['names'])} "
+                             f"{rows_term(t['data'])} in")
+            return tabs[key]
+
+        t0 = tab({"samples": inp["samples"], "names": inp["names"], "data": inp["data"]})
+        if steps is None:  # crash / timeout / uncaught: nothing observed
+            k = obs.get("kind", 99) if isinstance(obs, dict) else 99
+            steps = []
+            obs_terms = [f"(Err {L.z(k)}, {t0})"]
+        else:
+            obs_terms = []
+        ops = []
+        for i, op in enumerate(inp["ops"]):
+            so = steps[i] if i < len(steps) else None
+            k = op["k"]
+            if k == "index":
+                ops.append(f"SIndex {L.b(op['s'])} {L.b(op['n'])}")
+            elif k == "subset":
+                ops.append(f"SSubset {L.opt(op['rs'], names_term)} {L.opt(op['rn'], names_term)} {L.b(op['inplace'])}")
+            elif k == "append":
+                ops.append(f"SAppend {L.b(op['fit'])} {chars(op['name'])} {L.zl(op['col'])}")
+            elif k == "missing":
+                ops.append(f"SMissing {L.b(op['discard'])}")
+            elif k == "writeread":
+                ops.append("SWriteRead")
+            else:
+                out = "[]"
+                if so and "ret" in so and "ok" in so["ret"]:
+                    out = f"(data {tab(so['ret']['ok'])})"
+                ops.append(f"SStandardize {out}")
+        for so in steps:
+            if so.get("unobs"):
+                obs_terms.append(f"(Err 97, {t0})")
+                break
+            r = so["ret"]
+            rt = f"Ok {tab(r['ok'])}" if "ok" in r else f"Err {L.z(r['err'])}"
+            obs_terms.append(f"({rt}, {tab(so['self'])})")
+        return "(" + " ".join(binds) + f" mksq {t0} {L.lst(ops)} {L.lst(obs_terms)})"
+
+    # ---- bookkeeping --------------------------------------------------------------------------
+    def _walk(self, inp, obs):
+        """(index, op, table before, step observation) for every observed step"""
+        cur = {"samples": inp["samples"], "names": inp["names"], "data": inp["data"]}
+        for i, (op, so) in enumerate(zip(inp["ops"], (obs or {}).get("steps", []) if isinstance(obs, dict) else [])):
+            if so.get("unobs"):
+                return
+            yield i, op, cur, so
+            cur = so["self"]
+
+    def nontrivial(self, inp, obs):
+        changed = False
+        for i, op, before, so in self._walk(inp, obs):
+            if changed and _is_lookup(op) and not so["skipped"]:
+                return True
+            if _canon_tab(so["self"]) != _canon_tab(before):
+                changed = True
+        return False
+
+    def classes(self, inp, obs):
+        out = [inp.get("klass", "?"), inp["cls"], f"len={len(inp['ops'])}"] + list(inp.get("labs", []))
+        prior = set()
+        for i, op, before, so in self._walk(inp, obs):
+            k = op["k"]
+            out.append(f"op:{k}")
+            if so["skipped"]:
+                out.append(f"skipped:{k}")
+                continue
+            if "err" in so["ret"]:
+                out.append(f"{k}:err{so['ret']['err']}")
+            if _is_lookup(op):
+                for pk in sorted(prior):
+                    out.append(f"lookup-after-{pk}")
+                if k == "subset":
+                    for ax, have in (("rs", before["samples"]), ("rn", before["names"])):
+                        req = op[ax]
+                        if req is not None:
+                            out.append(f"{ax}:" + ("empty" if not req else "unknown-id" if any(x not in have for x in req)
+                                                   else "reorder-all" if sorted(req) == sorted(have) and req != have
+                                                   else "repeat" if _has_dup(req) else "some"))
+                    out.append("subset:inplace" if op["inplace"] else "subset:copy")
+            if _canon_tab(so["self"]) != _canon_tab(before):
+                tag = k
+                if k == "missing":
+                    bad = [any(b == M9 for b in r) for r in before["data"]]
+                    tag = "discard-not-last" if any(bad[:-1]) else "discard-last-only"
+                    if all(bad):
+                        tag = "discard-all"
+                elif k == "subset":
+                    tag = "inplace-subset"
+                prior.add(tag)
+        return sorted(set(out))
+
+    def shrink(self, inp):
+        ops = inp["ops"]
+        for i in range(len(ops)):
+            if len(ops) > 1:
+                yield dict(inp, ops=ops[:i] + ops[i + 1:])
+        s, nm, d = inp["samples"], inp["names"], inp["data"]
+        for i in range(len(s)):
+            if len(s) > 1:
+                yield dict(inp, samples=s[:i] + s[i + 1:], data=d[:i] + d[i + 1:])
+        for j in range(len(nm)):
+            if len(nm) > 1:
+                yield dict(inp, names=nm[:j] + nm[j + 1:], data=[r[:j] + r[j + 1:] for r in d])
+        for i, op in enumerate(ops):
+            if op["k"] == "subset":
+                for key in ("rs", "rn"):
+                    if op[key] is not None:
+                        yield dict(inp, ops=ops[:i] + [dict(op, **{key: None})] + ops[i + 1:])
+                        for x in range(len(op[key])):
+                            yield dict(inp, ops=ops[:i] + [dict(op, **{key: op[key][:x] + op[key][x + 1:]})] + ops[i + 1:])
+                if op["inplace"]:
+                    yield dict(inp, ops=ops[:i] + [dict(op, inplace=False)] + ops[i + 1:])
+        for i in range(len(s)):
+            for j in range(len(nm)):
+                if d[i][j] not in (M9, f2b(1.0)):
+                    dd = [list(r) for r in d]
+                    dd[i][j] = f2b(1.0)
+                    yield dict(inp, data=dd)
+        if inp.get("gz"):
+            yield dict(inp, gz=False)
+        if inp["cls"] == "C":
+            yield dict(inp, cls="P")
+
+    def mutate(self, inp, rng):
+        """boundary-directed variants of a disagreeing sequence: put -9 into a row that is not the last one, make sure a
+        look-up precedes the discard and a look-up of the surviving samples (in table order and reversed) follows it;
+        the same around every in-place subset / append / write+read of the sequence"""
+        s, nm = list(inp["samples"]), list(inp["names"])
+        base_ops = [dict(o) for o in inp["ops"]]
+        n = len(s)
+        for row in range(max(1, n - 1)):
+            d = [list(r) for r in inp["data"]]
+            if n > 1:
+                d[row][int(rng.integers(0, len(nm)))] = M9
+            surv = [x for x, r in zip(s, d) if M9 not in r]
+            for first in ({"k": "index", "s": True, "n": True},
+                          {"k": "subset", "rs": list(reversed(s)), "rn": None, "inplace": False}):
+                for tail in (surv, list(reversed(surv)), surv[-1:]):
+                    ops = [first, {"k": "missing", "discard": True}, {"k": "subset", "rs": tail, "rn": None, "inplace": False}]
+                    yield dict(inp, data=d, ops=ops, klass="mutate:lookup-discard-lookup")
+                    yield dict(inp, data=d, ops=(base_ops[:3] + ops)[:8], klass="mutate:prefix+lookup-discard-lookup")
+        for i, op in enumerate(base_ops):
+            if op["k"] in ("append", "writeread", "missing", "standardize") or (op["k"] == "subset" and op["inplace"]):
+                pre = {"k": "index", "s": True, "n": True}
+                allnames = ref_uniq(nm + [o["name"] for o in base_ops[: i + 1] if o["k"] == "append"])
+                post = [{"k": "subset", "rs": list(reversed(s)), "rn": None, "inplace": False},
+                        {"k": "subset", "rs": None, "rn": list(reversed(allnames)), "inplace": False}]
+                yield dict(inp, ops=(base_ops[:i] + [pre, op] + post)[:8], klass="mutate:lookup-around-" + op["k"])
+
+    def signature(self, inp, obs):
+        """the first step whose observation a cache-free reference does not explain, the last step before it that changed
+        the table, and whether a look-up was made earlier"""
+        prior = []
+        for i, op, before, so in self._walk(inp, obs):
+            k = op["k"]
+            if not so["skipped"]:
+                ret, after = ref_step(op, before)
+                if ret is not None:
+                    got = ("err", so["ret"]["err"]) if "err" in so["ret"] else _canon_tab(so["ret"]["ok"])
+                    want = ret if isinstance(ret, tuple) else _canon_tab(ret)
+                    changes = [x for x in prior if x != "lookup"]
+                    hist = (changes[-1] if changes else "nothing") + (" preceded by a look-up" if "lookup" in prior else "")
+                    if got != want:
+                        what = (f"raised {so['ret'].get('cls', '?')}" if "err" in so["ret"] else "returned other rows/columns/names")
+                        return f"opseq {k} after {hist}: {what}"
+                    if _canon_tab(so["self"]) != _canon_tab(after):
+                        return f"opseq {k} after {hist}: left the object's own table wrong"
+                elif "err" in so["ret"]:
+                    return f"opseq standardize raised {so['ret'].get('cls', '?')}"
+            if _canon_tab(so["self"]) != _canon_tab(before) or _is_lookup(op):
+                prior.append(("lookup" if _is_lookup(op) and not (k == "subset" and op["inplace"]) else
+                              "discard" if k == "missing" else k))
+        return "opseq standardize output / unobserved step"
+
+
+def canon_json(t):
+    import json
+
+    return json.dumps(t, sort_keys=True)
+
+
+RELATIONS = [RoundTrip(), Read(), Standardize(), Ops(), OpSeq()]
 
 LEVEL_TEXT = (
     "Coq theorems over all name lists, tables and files (no size bound) about a Gallina model of Phenotypes.write's name "
-    "suffixing, the reader's header detection and row skipping, append, subset and check_missing; the float64 text codec "
-    "is a Section contract. The model and the property's boolean checkers are evaluated inside Coq on every generated "
-    "write/read, hand-made file, standardize call and table operation run against the implementation."
+    "suffixing, the reader's header detection and row skipping, append, subset (both axes, error branches) and "
+    "check_missing, and about arbitrary SEQUENCES of these operations on one object (by induction over the operation "
+    "list: each call acts on the current table only, tables stay rectangular, a discarded sample never resolves again); "
+    "the float64 text codec is a Section contract. The model and the property's boolean checkers are evaluated inside Coq "
+    "on every generated write/read, hand-made file, standardize call, table operation and operation sequence run against "
+    "the implementation."
 )
 LEVEL_NOTE = (
     "partial: bit-exactness of numpy's shortest-unique printing + float64 parsing is a contract (parse (fmt x) = Some x), "
     "validated bit-for-bit on every roundtrip case, not a theorem; standardize is proved over the reals (C09's theorem) and "
-    "compared with exact rational mean/variance to 1e-9 on well-conditioned columns. Trusted: Coq kernel/vm_compute, the "
+    "compared cell by cell with the exact rational (deviation, variance) pair to 1e-9 on well-conditioned columns (agree) "
+    "while holds checks mean 0 / variance 1 of the output. Trusted: Coq kernel/vm_compute, the "
     "hand-written model, csv.reader's field splitting."
 )
 TECHNIQUE = "Coq proof (induction over name lists / file rows / tables) + vm_compute-evaluated correspondence against the implementation"
